@@ -122,6 +122,10 @@ def ipow (d : Nat) : Nat → Nat
   | 0 => 1
   | n + 1 => d * ipow d n
 
+/-- `from_vector` keeps a dummy bond of dimension 1 (index 0) when every singular value is discarded (zero vector):
+`if len(idx) == 0 and len(s) > 0: idx = np.array([0])` -/
+def fvKeep {ρ : Type} (idx0 : List Nat) (s : List ρ) : List Nat := if idx0.isEmpty && !s.isEmpty then [0] else idx0
+
 /-- loop of `MPS.from_vector`: `v` is the current `(Dleft, d^(n-i))` matrix. -/
 def fromVectorLoop (k : SvdKernels α ρ) (d : Nat) : Nat → Mat α → ρ → Except Err (List (T3 α) × Mat α)
   | 0, v, _ => .ok ([], v)
@@ -132,7 +136,7 @@ def fromVectorLoop (k : SvdKernels α ρ) (d : Nat) : Nat → Mat α → ρ → 
       -- v.reshape((Dleft*d, d**(nsites-i-1)))
       let M : Mat α := ⟨Dleft * d, cols, fun r c => v.f (r / d) ((r % d) * cols + c)⟩
       let (u, s, vv) := k.dsvd M.tab
-      let idx := retainedBondIndices k.dnorm k.dargsort s tol
+      let idx := fvKeep (retainedBondIndices k.dnorm k.dargsort s tol) s
       let u := (u.selectCols idx).tab
       let vv := (vv.selectRows idx).tab
       let sa := s.toArray
